@@ -51,6 +51,9 @@ class Func:
         return "<Func %s>" % self.qual
 
 
+# record types the rules know by name (their constructor calls and field reads are left as written)
+KNOWN_RECORDS = frozenset(["utils.Command"])
+
 # the functions the rules know by name (the anchors of properties.jsonl and their documented helpers, as confirmed by reading the pinned
 # tree).  A function of the package that is *not* in this table is unknown to the rules and is analysed as part of its callers (see
 # norm.inline_function); a function of this table that disappears makes the anchoring rule fail closed as before.
@@ -181,6 +184,12 @@ class Index:
             for q, f in self.funcs.items():
                 if q == f.qual:
                     f.node = new[q]
+            # the undecorated originals kept by compose_decorators have been read into their wrappers: they are not functions of the package
+            for q in [q for q, f in self.funcs.items() if getattr(f, "decorated_original_of", None)]:
+                wq = self.funcs[q].decorated_original_of
+                name = self.funcs[q].name
+                if not any(isinstance(n, (ast.Name, ast.Attribute)) and (getattr(n, "id", None) == name or getattr(n, "attr", None) == name) for n in ast.walk(self.funcs[wq].node)):
+                    del self.funcs[q]
         # program order of the (normalised) trees: line numbers of inlined code point into the helper, so "A comes before B" is asked of
         # the position in the tree, never of line numbers
         for q, f in self.funcs.items():
